@@ -270,6 +270,7 @@ def run(repo: Repo, rep: Report, tier: str) -> None:
     delegate(repo, rep, tier, "C05", ("abort-once", "abort-not-after-release", "release-only-established"), "provider-survives", "the provider thread dies with InvalidEventError: EVT_CONN_CLOSE is never emitted, the transition history stops short of Sta1 and EVT_ABORTED can follow EVT_RELEASED")
     delegate(repo, rep, tier, "C03", ("tls-portable", "short-is-closed"), "provider-survives", "on a TLS connection the provider thread leaves through its internal-error exit: an A-ABORT is written without EVT_PDU_SENT, EVT_CONN_CLOSE is never emitted and the history stops in Sta6")
     delegate(repo, rep, tier, "C01", ("none-not-falsy", "variant-selection"), "provider-survives", "a legal falsy parameter (an empty user-identity server response) selects the wrong item kind; the conversion raises inside the state-machine action that sends the A-ASSOCIATE PDU, the provider thread dies in Sta3: EVT_ESTABLISHED is followed by no PDU-sent and no connection-close notification")
+    delegate(repo, rep, tier, "C24", ("reader-woken",), "provider-survives", "the provider thread blocks inside an abort action (a bounded DIMSE queue that is full) or leaves the DIMSE user waiting: the history stops before Sta1 - EVT_ABORTED without the EVT_CONN_CLOSE that must follow it")
     delegate(repo, rep, tier, "C04", ("artim-run-state",), "provider-survives", "the provider thread dies with InvalidEventError in an established association: EVT_CONN_CLOSE is never emitted and the transition history stops in Sta6")
 
 
